@@ -29,15 +29,7 @@ func newDirected(env *Env, h specqbft.Height, byz []spectypes.OperatorID, compac
 		reported: map[spectypes.OperatorID][]byte{}, decVal: map[spectypes.OperatorID][]byte{}, compact: compact}
 	a.Sim = &Sim{env: env, h: h}
 	a.setByz(byz...)
-	for i := 1; i <= env.n; i++ {
-		id := spectypes.OperatorID(i)
-		nd := &SimNode{id: id, byz: a.byz[id], compact: compact}
-		if !nd.byz {
-			nd.c = newCase(env, id, h, [][]byte{badValue}, true, false, compact)
-			nd.c.emit(nd.c.resetLine(), "ok")
-		}
-		a.nodes = append(a.nodes, nd)
-	}
+	a.addNodes(env, h, compact)
 	a.f = &Forge{env: env, r: r, h: h}
 	return a
 }
